@@ -24,6 +24,7 @@
 -/
 import Cog.Sem.PyRoundTrip
 import Cog.Props.C01
+import Cog.Sem.WidenPy   -- (pass-widening block at the end of this file)
 namespace Cog.Sem
 open Cog.IR
 
@@ -356,5 +357,132 @@ theorem C11_full_agree_counterexample : ¬ C11_full_agree := by
   | err | unsup _ | fuel => simp [hg] at hne
 
 theorem C11_full_counterexample : ¬ C11_full := fun h => C11_full_roundtrip_counterexample h.1
+
+/-! ## BEGIN pass widening through the regenerated Python chain (append-only block, owner: c01-widening builder)
+
+Part (c) for Python: for a PRE-chain IR `S` (front-end output) in the decidable fragment `PlainPy`
+(Cog/Sem/SrcPy.lean: plain types, two-branch `T | null` pairs, anonymous enums — which stay inline in
+the Python chain —, and the source-side mirror `pyOK` of `pyDen`'s exclusions), resp. `PlainPyS` (also
+anonymous structs with fresh generated names), every document of the source-side language `srcDen`
+belongs to `pyDen` of the output of `Cog.Gen.Chains.pythonChain` run by `Cog.Passes.runChain` over the
+pass models; composed with the round-trip theorem above, and with C01's Go result into a source-level
+wire agreement.  Tie: stream `c11-src` (harness/c01_src.go), verb `srcpy` (lean/Cog/Drv/SrcDenDrv.lean). -/
+
+namespace C11w
+open Cog.Passes Cog.Gen.Chains Cog.Sem.Src
+
+/-- the FULL statement: for every pre-chain IR, every document of the source-side language of a named
+    object is in `pyDen` of the same object after the Python chain (at some fuel) -/
+def C11_pass_widening_full : Prop :=
+  ∀ (S S' : Schemas) (pkg name : String) (n : Nat) (j : Json), runChain pythonChain S = .ok S' →
+    srcDen n S (.ref pkg name {}) j = true → ∃ n', pyDen n' S' (.ref pkg name {}) j = true
+
+/-- pass widening through the real regenerated Python chain on `PlainPy`; the image of a type is
+    `nullOpt t` (a `T | null` pair replaced by the nullable `T`; `t` itself otherwise) -/
+theorem C11_pass_widening_partial (S S' : Schemas) (hP : PlainPy S = true)
+    (hrun : runChain pythonChain S = .ok S') (n : Nat) (t : Ty) (ht : nrTy t = true) (hpt : pyTy t = true)
+    (j : Json) (h : srcDen n S t j = true) : pyDen (n + 1) S' (nullOpt t) j = true :=
+  (widen_py pythonChain (by decide) S S' hP hrun).2 n t j ht hpt h
+
+/-- the output of the Python chain on the fragment is the computable `pyS S` -/
+theorem C11_python_chain_exact (S S' : Schemas) (hP : PlainPy S = true)
+    (hrun : runChain pythonChain S = .ok S') : S' = pyS S :=
+  (widen_py pythonChain (by decide) S S' hP hrun).1
+
+/-- … for the named objects of a pre-chain IR with anonymous structs -/
+theorem C11_pass_widening_struct_partial (S S' : Schemas) (hS : PlainPyS S = true)
+    (hrun : runChain pythonChain S = .ok S') (n : Nat) (pkg name : String) (j : Json)
+    (h : srcDen n S (.ref pkg name {}) j = true) : pyDen (n + 1) S' (.ref pkg name {}) j = true :=
+  (widen_pyS pythonChain (by decide) S S' hS hrun).2 n pkg name j h
+
+/-- (c) + round trip: a source-valid document of a named object is decoded without exception by the
+    generated Python class and `to_json` / `JSONEncoder` of the result is JSON-equal to it up to
+    omission of null members -/
+theorem C11_source_roundtrip_partial (S S' : Schemas) (hS : PlainPyS S = true)
+    (hrun : runChain pythonChain S = .ok S') (n : Nat) (pkg name : String) (j : Json)
+    (h : srcDen n S (.ref pkg name {}) j = true) :
+    ∃ v, pyFromJson (n + 1) S' (.ref pkg name {}) j = .ok v ∧ Json.eqv (pyToJson v) j = true :=
+  C11_roundtrip_partial S' (n + 1) _ j (C11_pass_widening_struct_partial S S' hS hrun n pkg name j h)
+
+/-- the same as the lab driver's `roundtrip` (which first rejects duplicate keys) -/
+theorem C11_source_object_roundtrip_partial (S S' : Schemas) (hS : PlainPyS S = true)
+    (hrun : runChain pythonChain S = .ok S') (n : Nat) (pkg name : String) (j : Json) (hw : wfJson j = true)
+    (h : srcDen n S (.ref pkg name {}) j = true) :
+    ∃ j', pyRoundTrip (n + 1) S' pkg name j = .ok j' ∧ Json.eqv j' j = true :=
+  C11_object_roundtrip_partial S' (n + 1) pkg name j hw
+    (C11_pass_widening_struct_partial S S' hS hrun n pkg name j h)
+
+/-- source-level wire agreement on the common fragment: ONE pre-chain IR, both regenerated chains; a
+    document of the source-side language of a named object is decoded by both generated codecs and what
+    Python emits is JSON-equal (up to null members) to what Go emits -/
+theorem C11_source_agree_partial (S Sg Sp : Schemas) (hG : PlainS S = true) (hPy : PlainPyS S = true)
+    (hgo : runChain goChain S = .ok Sg) (hpy : runChain pythonChain S = .ok Sp)
+    (n : Nat) (pkg name : String) (j : Json) (h : srcDen n S (.ref pkg name {}) j = true) :
+    ∃ gv pv, goDecode (n + 1) Sg (.ref pkg name {}) j = .ok gv ∧
+      pyFromJson (n + 1) Sp (.ref pkg name {}) j = .ok pv ∧
+      Json.eqv (pyToJson pv) (GoVal.goEncode gv) = true :=
+  C11_go_py_agree_partial Sg Sp (n + 1) (n + 1) _ _ j
+    (C01_pass_widening_struct_partial S Sg hG hgo n pkg name j h)
+    (C11_pass_widening_struct_partial S Sp hPy hpy n pkg name j h)
+
+/-! ### non-vacuity -/
+
+def mW : Meta := {}
+def iW : DisjInfo := {}
+def tS : Ty := .scalar "string" .nil [] mW
+def tNullS : Ty := .scalar "null" .nil [] mW
+def anonE : Ty :=
+  .enum [{ name := "1", value := .str "1", kind := "string" }, { name := "b", value := .str "b", kind := "string" }] mW
+def colorE : Ty :=
+  .enum [{ name := "1", value := .int "i64" 1, kind := "int64" }, { name := "2", value := .int "i64" 2, kind := "int64" }] mW
+
+def rootW : Ty :=
+  .struct [
+    { name := "name", ty := .disj [tS, tNullS] iW mW, required := true },
+    { name := "kind", ty := .scalar "string" (.str "v1") [] mW, required := true },
+    { name := "count", ty := .scalar "int64" .nil [] mW, required := false },
+    { name := "tags", ty := .array (.disj [tS, tNullS] iW mW) mW, required := false },
+    { name := "child", ty := .ref "p" "Root" mW, required := false },
+    { name := "order", ty := anonE, required := false },
+    { name := "color", ty := .ref "p" "Color" mW, required := false },
+    { name := "opts", ty := .struct [{ name := "x", ty := tS, required := true }] [] none mW, required := false },
+    { name := "items", ty := .array (.struct [{ name := "v", ty := .scalar "int64" .nil [] mW, required := true }] [] none mW) mW, required := true }] [] none mW
+
+def exW : Schemas :=
+  [{ pkg := "p", objects := [
+      ("Root", { name := "Root", selfPkg := "p", selfName := "Root", ty := rootW }),
+      ("Color", { name := "Color", selfPkg := "p", selfName := "Color", ty := colorE })] }]
+
+def docW : Json :=
+  .obj [("name", .null), ("kind", .str "v1"), ("tags", .arr [.str "a", .null]), ("order", .str "b"),
+        ("color", .num 8), ("opts", .obj [("x", .str "y")]), ("items", .arr [.obj [("v", .num 4)]]),
+        ("child", .obj [("name", .str "n"), ("kind", .str "v1"), ("items", .arr [])])]
+
+/-- the example lies in both fragments (Go: `PlainS`, Python: `PlainPyS`), the document is in `srcDen`,
+    both chains run, and the conclusions hold when evaluated on the models' outputs -/
+example : PlainPyS exW = true ∧ PlainS exW = true ∧ PlainPy exW = false ∧
+    srcDen 8 exW (.ref "p" "Root" {}) docW = true ∧
+    (match runChain pythonChain exW with
+     | .ok Sp => pyDen 9 Sp (.ref "p" "Root" {}) docW &&
+         (match pyRoundTrip 9 Sp "p" "Root" docW with | .ok j' => Json.eqv j' docW | _ => false)
+     | _ => false) = true ∧
+    (match runChain goChain exW, runChain pythonChain exW with
+     | .ok Sg, .ok Sp =>
+       (match goRoundTrip 9 Sg "p" "Root" docW, pyRoundTrip 9 Sp "p" "Root" docW with
+        | .ok a, .ok b => Json.eqv b a
+        | _, _ => false)
+     | _, _ => false) = true := by
+  refine ⟨by decide +kernel, by decide +kernel, by decide +kernel, by decide +kernel, by decide +kernel,
+    by decide +kernel⟩
+
+def nullableRefTy : Ty :=
+  .struct [{ name := "child", ty := .ref "p" "Root" { nullable := true }, required := false }] [] none mW
+
+/-- outside the fragment, as `pyDen` demands: a nullable reference (explicit `null` raises in `from_json`) -/
+example : PlainPy [{ pkg := "p", objects := [("Root", { name := "Root", selfPkg := "p", selfName := "Root", ty := nullableRefTy })] }] = false := by
+  decide +kernel
+
+end C11w
+/-! ## END pass widening through the regenerated Python chain -/
 
 end Cog.Sem
